@@ -142,6 +142,16 @@ def gen_cases(tier, seed):
         args = ["--driver", driver, "-w", str(r.choice([1, 2, 4])), "--reflink", "never"] + (["--no-progress"] if bsv is None else ["--block-size", str(bsv)]) + ["src/f0", "dst"]
         yield {"kind": "xcp", "fs": ["tmpfs", "ext4"][(i // 2) % 2], "spec": [{"p": "src", "k": "d"}, f], "args": args,
                "driver": driver, "block": bname, "bsv": bsv, "policy": kind + ":bigblock", "rules": rules}
+    # a dense file longer than the kernel moves in one call (2 GiB - 4 KiB), copied as one block: the short count comes by itself
+    # (preallocated, with data at the start, around the 2 GiB mark and at the end, so that it is quick to make)
+    for i in range(2 if tier == "quick" else 6):
+        driver = ["parblock", "parfile"][i % 2]
+        size = (2 << 30) + (5 << 20) + [3, 0, 4096][i % 3]
+        f = {"p": "src/f0", "k": "f", "seed": r.randrange(1, 1 << 30), "size": size, "segs": [[0, 4096], [(2 << 30) - 8192, 16384], [size - 5000, 5000]], "falloc": [[0, size]], "sync": True,
+             "layout": "dense-beyond-2GiB"}
+        bname, bsv = [("np", None), ("np", None), ("3GB", 3000000000)][i % 3]
+        args = ["--driver", driver, "-w", str([1, 4][i % 2]), "--reflink", "never"] + (["--no-progress"] if bsv is None else ["--block-size", str(bsv)]) + ["src/f0", "dst"]
+        yield {"kind": "xcp", "fs": "ext4", "spec": [{"p": "src", "k": "d"}, f], "args": args, "driver": driver, "block": bname, "bsv": bsv, "policy": "none:beyond-2GiB", "rules": []}
     # sources of reported length 0 (the kernel's own files): their content arrives in short reads by nature
     for i, path in enumerate([p_ for p_ in ["/proc/crypto", "/proc/kallsyms", "/proc/version", "/proc/filesystems"] if os.path.exists(p_)]):
         for driver in ("parfile", "parblock"):
